@@ -23,7 +23,7 @@
 (* Attribute and type tokens are strings; their Rust spelling, their       *)
 (* values and their serde behaviour live in the renderer (lib/corpus.py).  *)
 (***************************************************************************)
-EXTENDS Naturals, Sequences, FiniteSets, TLC, Json, IOUtils
+EXTENDS Naturals, Sequences, FiniteSets, SequencesExt, TLC, Json, IOUtils
 
 Cfg == JsonDeserialize(IOEnv.VERIF_CFG)
 \* Cfg.kinds, Cfg.reprs, Cfg.cattrsets, Cfg.shapes, Cfg.vshapes, Cfg.vattrsets, Cfg.tys, Cfg.fattrsets : sequences
